@@ -57,6 +57,12 @@ def handle_check(prop, tier, seed):
         ga = ["--random", "--seed", str(seed * 1000 + {"debug": 1, "release": 2, "asan": 3}[profile]), "--nprog", str(nprog), "--steps", str(steps),
               "--maxh", "6" if tier == "quick" else "8", "--maxlen", "12", "--profile", emph]
         results.append(H.run_config("%s_%s_rand" % (prop, profile), profile, ga))
+    # buffers of 1-3 KiB (the original-capacity classes of bytes_mut.rs start at 1 KiB; growth, reclaim and
+    # copy paths with sizes far from the boundary cases above)
+    for profile in (("release",) if tier == "quick" else ("debug", "release")):
+        ga = ["--random", "--seed", str(seed * 1000 + 7 + (profile == "debug")), "--nprog", "120" if tier == "quick" else "1500", "--steps", "30",
+              "--maxh", "5", "--maxlen", "1500", "--profile", emph]
+        results.append(H.run_config("%s_%s_large" % (prop, profile), profile, ga))
     extra, rc2 = None, 0
     if prop == "C03":
         # "stays alive as long as any handle can read it ... released exactly once" also under
